@@ -103,6 +103,28 @@ theorem scatterP_of_scatter (floor : α → Int) (g : Grid α) : ∀ (obs : List
       cases hp : put c line column v with
       | none => rw [hp] at h; simp at h
       | some c1 => rw [hp] at h; simp only at h ⊢; exact ih c1 c' h
+
+/-- the scatter loop over `pre ++ rest` when it does not raise on `pre`: it goes on over `rest` from the cells reached -/
+theorem scatterP_append_of_scatter (floor : α → Int) (g : Grid α) (rest : List (α × α × V)) :
+    ∀ (pre : List (α × α × V)) (c c' : Cells V),
+    scatter floor g c pre = some c' → scatterP floor g c (pre ++ rest) = scatterP floor g c' rest := by
+  intro pre
+  induction pre with
+  | nil => intro c c' h; simp only [scatter, Option.some.injEq] at h; simp [h]
+  | cons o pre ih =>
+    intro c c' h
+    obtain ⟨x, y, v⟩ := o
+    simp only [scatter] at h
+    simp only [List.cons_append, scatterP]
+    cases hc : getCell floor g x y with
+    | none => rw [hc] at h; simp at h
+    | some p =>
+      obtain ⟨column, line⟩ := p
+      rw [hc] at h
+      simp only at h ⊢
+      cases hp : put c line column v with
+      | none => rw [hp] at h; simp at h
+      | some c1 => rw [hp] at h; simp only at h ⊢; exact ih c1 c' h
 end scatterP
 
 section add
@@ -471,6 +493,47 @@ theorem computeAll_ok (wr : Option α) (V : Option (Vals α)) : ∀ bands : List
     simp only [computeAll]
     rw [hpair]
     simp only [ih', List.map_cons]
+
+/-- a failing `computeAggregates`: the bands before the first band that raises have been rewritten, that band and the
+    following ones are as they were; the exception is that band's -/
+theorem computeAll_fail (wr : Option α) (V : Option (Vals α)) : ∀ (bands bands' : List (Band α)) (e : Err),
+    computeAll wr V bands = (bands', some e) →
+    ∃ (pre : List (Band α)) (b : Band α) (post : List (Band α)), bands = pre ++ b :: post
+      ∧ (∀ p ∈ pre, (computeBand wr V p).2 = none) ∧ computeBand wr V b = (b, some e)
+      ∧ bands' = pre.map (fun p => (computeBand wr V p).1) ++ b :: post := by
+  intro bands
+  induction bands with
+  | nil => intro bands' e h; simp [computeAll] at h
+  | cons b rest ih =>
+    intro bands' e h
+    simp only [computeAll] at h
+    cases hb : (computeBand wr V b).2 with
+    | some x =>
+      have hpair : computeBand wr V b = ((computeBand wr V b).1, some x) := by rw [← hb]
+      rw [hpair] at h
+      simp only [Prod.mk.injEq, Option.some.injEq] at h
+      have hsame : (computeBand wr V b).1 = b := by
+        unfold computeBand at hb ⊢
+        split <;> try rfl
+        split <;> try rfl
+        split <;> try rfl
+        split <;> try rfl
+        simp_all
+      refine ⟨[], b, rest, rfl, by simp, ?_, ?_⟩
+      · rw [hpair, hsame, h.2]
+      · rw [← h.1, hsame]; rfl
+    | none =>
+      have hpair : computeBand wr V b = ((computeBand wr V b).1, none) := by rw [← hb]
+      rw [hpair] at h
+      simp only [Prod.mk.injEq] at h
+      have hrest : computeAll wr V rest = ((computeAll wr V rest).1, some e) := by rw [← h.2]
+      obtain ⟨pre, b0, post, h1, h2, h3, h4⟩ := ih _ e hrest
+      refine ⟨b :: pre, b0, post, by rw [h1]; rfl, ?_, h3, ?_⟩
+      · intro p hp
+        rcases List.mem_cons.1 hp with e' | e'
+        · rw [e']; exact hb
+        · exact h2 p e'
+      · rw [← h.1, h4]; rfl
 
 /-- the state reached by any sequence of calls `pre` on a new raster, then a well-formed `addCollectionToRaster` -/
 def afterAdd (g : Grid α) (nd : Option α) (pre : List (Cmd α)) (afo : List String) (T : List (Trk α)) : RState α :=
